@@ -211,13 +211,13 @@ class Gen:
         self.bump('txs', len(all_txs))
         return b
 
-    def new_block(self, parent, max_txs=6):
+    def new_block(self, parent, max_txs=6, min_txs=0):
         rng = self.rng
         height = parent.height + 1 if parent else 0
         utxos = dict(parent.utxos) if parent else {}
         created_here = []
         txs = []
-        ntx = rng.randrange(0, max_txs + 1)
+        ntx = rng.randrange(min_txs, max_txs + 1)
         # coinbase
         if self.collisions and (height < 3 or rng.random() < 0.3):
             group = self.collisions[0]
